@@ -14,6 +14,9 @@ INT_EDGES = [0, 1, -1, 2, -2, 127, 128, -128, -129, 255, 256, 32767, 32768, -327
              2 ** 63 - 1, 2 ** 63, -2 ** 63, -2 ** 63 - 1, 2 ** 64 - 1, 2 ** 64, 2 ** 70]
 LEN_EDGES = [0, 1, 2, 3, 7, 8, 9, 15, 16, 17, 63, 64, 65, 127, 128, 129, 255, 256, 257]
 BIG_LENS = [16383, 16384, 16385, 32768, 49152, 65535, 65536, 70000]
+# lengths on both sides of the one/two-octet length forms (BER 127/128 and 255/256, PER 127/128, OER 127/128),
+# above max_len; drawn for a few percent of the lengths so that most values stay small
+MID_LENS = [63, 64, 65, 127, 128, 129, 255, 256, 257, 300, 1000]
 REAL_EDGES = [0.0, 1.0, -1.0, 0.5, 1.5, 2.0, 255.0, 256.0, 65535.0, 0.1, -0.1, 1e-5, 1e-7,
               1e16, 1e300, -1e300, 1e-300, 5e-324, 2.2250738585072014e-308,
               1.7976931348623157e308, 3.141592653589793, 123456789.125, 2.0 ** 60, 2.0 ** -60,
@@ -26,7 +29,7 @@ class ValCfg(object):
     def __init__(self, numeric_enums=False, big=False, chars='any', nan=False, neg_zero=False,
                  max_len=40, max_depth=4, tz=True, out_of_root=True, partial_additions=True,
                  dirty_bits=True, real_int=False, bmp_only=False, utc_seconds=True,
-                 gt_micro=True, time_kinds_tz=False):
+                 gt_micro=True, time_kinds_tz=False, mid=True, mid_rate=7):
         self.numeric_enums = numeric_enums
         self.big = big
         self.chars = chars          # 'any' | 'xml'
@@ -40,6 +43,8 @@ class ValCfg(object):
         self.dirty_bits = dirty_bits
         self.real_int = real_int
         self.gt_micro = gt_micro
+        self.mid = mid              # lengths in MID_LENS
+        self.mid_rate = mid_rate
 
 
 def xml_ok(c):
@@ -66,14 +71,17 @@ class VG(object):
     # ------------------------------------------------------------------
     def length(self, size, unit_cost=1, allow_big=True):
         cfg = self.cfg
-        n = self._length(size, allow_big and not getattr(self, '_big_used', False))
+        n = self._length(size, allow_big and not getattr(self, '_big_used', False),
+                         allow_big and getattr(self, '_mid_used', 0) < 2)
+        if n > cfg.max_len:
+            self._mid_used = getattr(self, '_mid_used', 0) + 1
         if n >= 16383:
             # at most one 16K+ length per top-level value: nested big lengths multiply into values that take
             # minutes per case without exercising anything new
             self._big_used = True
         return n
 
-    def _length(self, size, big_ok):
+    def _length(self, size, big_ok, mid_ok=False):
         cfg = self.cfg
         lo = 0
         hi = None
@@ -84,6 +92,9 @@ class VG(object):
             ext = size.ext
         cap = cfg.max_len
         cands = [x for x in LEN_EDGES if x <= cap]
+        mid = cfg.mid and mid_ok and self.chance(cfg.mid_rate)
+        if mid:
+            cands = cands + [x for x in MID_LENS if x > cap]
         big = cfg.big and big_ok and self.chance(12)
         if big:
             cands = cands + BIG_LENS
@@ -92,7 +103,8 @@ class VG(object):
             n = self.pick(cands + [lo, lo + 1, (hi or lo) + 1])
             return max(0, n)
         ok = [x for x in cands + [lo, lo + 1] + ([hi, hi - 1] if hi is not None else [])
-              if x >= lo and (hi is None or x <= hi) and (x <= max(cap, lo) or (big and x in BIG_LENS))]
+              if x >= lo and (hi is None or x <= hi) and (x <= max(cap, lo) or (mid and x <= 1000) or
+                                                          (big and (x in BIG_LENS or x in (hi, hi - 1)) and x <= 70001))]
         if not ok:
             return lo
         if self.chance(60):
@@ -253,6 +265,7 @@ class VG(object):
     def value(self, ty, modname, depth=0):
         if depth == 0:
             self._big_used = False
+            self._mid_used = 0
         r = asn.resolve(self.spec, ty, modname)
         b = r.base
         k = b.kind
@@ -279,7 +292,10 @@ class VG(object):
         if k == 'OBJECT IDENTIFIER':
             return self.oid()
         if k in asn.STRING_KINDS:
-            return self.string(k, r.size, r.alpha)
+            alpha = r.alpha
+            if alpha is None and r.alpha_ext is not None and not (self.cfg.out_of_root and self.chance(35)):
+                alpha = r.alpha_ext     # extensible alphabet: mostly root characters, sometimes any character
+            return self.string(k, r.size, alpha)
         if k in asn.TIME_KINDS:
             return self.time(k)
         if k in ('SEQUENCE', 'SET'):
